@@ -1,5 +1,5 @@
 (* C15 — taking ownership of a response preserves its value. *)
-From TI Require Import Bytes Grammar Interp Owned OwnedProofs Natives OwnedRun Proofs_C15.
+From TI Require Import Bytes Grammar Interp Owned OwnedProofs Natives OwnedRun Proofs_Wf Proofs_C15.
 From TI.gen Require Import Tables PanicSites.
 
 (* generic: any table of into_owned bodies that passes the computable check denotes the identity on values
@@ -33,6 +33,20 @@ Proof. exact owned_parse_identity. Qed.
 Check c15_parse_then_own : forall i rest v used,
   parse i = ROk rest v used -> wf_val v = true -> fst (owned_parse i) = ROk rest v used.
 Print Assumptions c15_parse_then_own.
+
+(* every value the parser returns has distinct field names in every record, so for parsed responses (the whole
+   type tree, whatever the input) taking ownership is the identity without any side condition *)
+Theorem c15_parsed_values_well_formed : forall i rest v used, parse i = ROk rest v used -> wf_val v = true.
+Proof. exact parse_wf. Qed.
+Check c15_parsed_values_well_formed : forall i rest v used, parse i = ROk rest v used -> wf_val v = true.
+Print Assumptions c15_parsed_values_well_formed.
+
+Theorem c15_parse_then_own_unconditional : forall i rest v used,
+  parse i = ROk rest v used -> owned_parse i = (ROk rest v used, true).
+Proof. exact owned_parse_identity_all. Qed.
+Check c15_parse_then_own_unconditional : forall i rest v used,
+  parse i = ROk rest v used -> owned_parse i = (ROk rest v used, true).
+Print Assumptions c15_parse_then_own_unconditional.
 
 (* an owned value cannot alias the buffer: imap-proto has no unsafe code at all *)
 Theorem c15_no_unsafe_in_imap_proto : proto_unsafe_sites = [].
